@@ -1276,14 +1276,15 @@ def solution_doc(stops, statistic, overall=None):
 # ---------------------------------------------------------------------------------------------------------------------
 # C16 (pragmatic level) / C10 totality: routing matrix documents -> MatrixData
 
-def ob_pragmatic_matrix(ctx, n, m):
+def ob_pragmatic_matrix(ctx, n, m, n_tt=None):
     """C16 at the pragmatic reader (and C10 totality): the per-matrix step of `create_transport_costs` (real MIR of the
     closure, `MatrixData::new` from vrp-core) for a matrix document with n travel times / distances and m error codes
     (m = None: no `errorCodes`): the produced routing data has n entries per table and entry i is the supplied value, or
     -1 in both tables when error code i is positive - or the document is rejected (Err -> documented code E0002)."""
-    name = f'pragmatic_matrix[entries={n},codes={m}]'
+    n_tt = n if n_tt is None else n_tt
+    name = f'pragmatic_matrix[entries={n},codes={m}{",travelTimes=" + str(n_tt) if n_tt != n else ""}]'
     res = Result(name)
-    res.bounds = f'one matrix document: {n} travel times and {n} distances (symbolic i64 in [0,2^31]), {"no" if m is None else m} error codes (symbolic in [-2,2])'
+    res.bounds = f'one matrix document: {n_tt} travel times and {n} distances (symbolic i64 in [0,2^31]), {"no" if m is None else m} error codes (symbolic in [-2,2])'
     t0 = time.time()
     cands = [f for nme, f in ctx.prog.functions.items() if nme.startswith('fleet_reader::create_transport_costs::{closure#') and nme.count('{closure#') == 1
              and re.search(r'_2: \(usize, (?:std::option::)?Option<(?:std::string::)?String>, &[\w:]*Matrix\)\) -> (?:std::result::)?Result<', f.header)]
@@ -1307,7 +1308,7 @@ def ob_pragmatic_matrix(ctx, n, m):
 
     def body(st):
         env.assumptions.clear()
-        tt = [env.sym_i(f'tt{i}', 0, 2 ** 31, 'i64') for i in range(n)]
+        tt = [env.sym_i(f'tt{i}', 0, 2 ** 31, 'i64') for i in range(n_tt)]
         ds = [env.sym_i(f'dist{i}', 0, 2 ** 31, 'i64') for i in range(n)]
         codes = [env.sym_i(f'code{i}', -2, 2, 'i64') for i in range(m or 0)]
         matrix = env.struct('problem::model::Matrix', profile=mk_option(True, Opaque('"car"'), ty='Option<String>'), timestamp=mk_option(False, ty='Option<String>'),
@@ -1357,9 +1358,14 @@ def ob_pragmatic_matrix(ctx, n, m):
             res.case = case_of(model if v == 'sat' else None)
             break
         claims = []
+        if len(holder['tt']) < n and m is None:
+            continue        # without error codes the two tables are copied independently; the provider constructor rejects unequal lengths (C16 Kani harnesses)
         for i in range(n):
             bad = holder['codes'][i].t > 0 if m is not None else z3.BoolVal(False)
             claims.append(z3.And(z3.Not(durs[i].m), z3.Not(dsts[i].m)))
+            if i >= len(holder['tt']):
+                claims.append(z3.And(bad, durs[i].v == -1, dsts[i].v == -1))      # a missing travel time is only acceptable under an error code
+                continue
             claims.append(durs[i].v == z3.If(bad, -1, holder['tt'][i].t))
             claims.append(dsts[i].v == z3.If(bad, -1, holder['ds'][i].t))
         if not decide_claim(ctx, res, env, st, z3.And(*claims), what=f'{name}: entry i = supplied value, or -1 in both tables when error code i > 0'):
